@@ -6,8 +6,10 @@
    Nothing is proved here about the other pattern linters: for them the law below is tested on the implementation
    (harness/props/c19.py).  Only statements closed by `exact <lemma>` and their Print Assumptions. *)
 From Coq Require Import Permutation.
-From TL Require Import Lib.Base Lib.GenTypes Gen.EmbedGen Model.Embed Model.PrintStmt Model.PerfConcat Model.EmbedRun
-     Proofs.EmbedLocality Proofs.PrintStmtLocal Proofs.PerfConcatLocal Proofs.PerfConcatRename.
+From TL Require Import Lib.Base Lib.GenTypes Gen.EmbedGen Model.Embed Model.PrintStmt Model.PerfConcat Model.StatelessCls
+     Model.MethodProp Model.EmbedRun
+     Proofs.EmbedLocality Proofs.PrintStmtLocal Proofs.PerfConcatLocal Proofs.PerfConcatRename Proofs.StatelessClsLocal
+     Proofs.MethodPropLocal.
 
 (* ---------------------------------------------------------------- 1. any walker-shaped detector *)
 (* step pushes a summary of the ancestors down, emit reports at a node from the summary and the node's subtree.
@@ -39,6 +41,16 @@ Section Generic.
     ctx_pre step emit c s ++ shiftRs (off_l c) (off_c c) (detectF step emit s frag) ++ ctx_post step emit c s.
   Proof. exact (plug_local step emit step_shift emit_shift). Qed.
 
+  (* 1b'. wrappers may report something of their own and may change the summary, as long as neither depends on what is
+          in the hole: the fragment is analysed under the summary the empty context produces at its hole *)
+  Theorem C19_locality_general : forall c frag s,
+    indep step emit c s ->
+    detectF step emit s (plug c frag) =
+    gen_pre step emit c [] s
+    ++ shiftRs (off_l c) (off_c c) (detectF step emit (hole_sum step c [] s) frag)
+    ++ gen_post step emit c [] s.
+  Proof. exact (plug_indep step emit step_shift emit_shift). Qed.
+
   (* 1c. n copies give the n moved report lists: once per occurrence, at the line of the occurrence *)
   Theorem C19_copies : forall s n h frag,
     detectF step emit s (copies n h frag) = flat_map (fun k => shiftRs (k * h) 0 (detectF step emit s frag)) (seq 0 n).
@@ -51,6 +63,7 @@ End Generic.
 Print Assumptions C19_decomposition.
 Print Assumptions C19_locality.
 Print Assumptions C19_locality_ordered.
+Print Assumptions C19_locality_general.
 Print Assumptions C19_copies.
 Print Assumptions C19_copies_count.
 
@@ -154,6 +167,75 @@ Theorem C19_concat_global_names_partial : forall q c frag,
   ++ ctx_post (cl_step q) (cl_emit q) c (classify_allF frag).
 Proof. exact concat_global_names_partial. Qed.
 Print Assumptions C19_concat_global_names_partial.
+
+(* confinement of the de-duplication quirk (partial: the full statement is C19_concat_copies / C19_concat_local): with
+   q_concat_dedup_by_name on, the rule reports exactly the candidates of the code's own traversal on every file in which
+   no two candidates share a variable name *)
+Theorem C19_concat_dedup_partial : forall q file,
+  q_concat_dedup_by_name q = true -> NoDup (map snd (raw_candidates q file)) ->
+  concat_reports q file = raw_candidates q file.
+Proof. exact concat_dedup_partial. Qed.
+Print Assumptions C19_concat_dedup_partial.
+
+(* ---------------------------------------------------------------- 4. stateless classes (src/linters/stateless_class) *)
+(* for every quirk vector whose filters examine the class itself (whatever the two name flags are) and every context
+   that wraps in no class *)
+Theorem C19_stateless_local : forall q c frag,
+  q_sl_lookup_by_name q = false -> sl_ctx_ok c = true ->
+  Permutation (stateless_reports q (plug c frag))
+              (shiftRs (off_l c) (off_c c) (stateless_reports q frag) ++ stateless_reports q (fillers c)).
+Proof. exact stateless_embedding_fillers. Qed.
+Print Assumptions C19_stateless_local.
+
+Theorem C19_stateless_local_ordered : forall q c frag,
+  q_sl_lookup_by_name q = false -> sl_ctx_ok c = true ->
+  stateless_reports q (plug c frag) =
+  ctx_pre sl_step (sl_emit q) c [] ++ shiftRs (off_l c) (off_c c) (stateless_reports q frag) ++ ctx_post sl_step (sl_emit q) c [].
+Proof. exact stateless_embedding_local. Qed.
+Print Assumptions C19_stateless_local_ordered.
+
+Theorem C19_stateless_copies : forall q n h frag,
+  q_sl_lookup_by_name q = false ->
+  stateless_reports q (copies n h frag) = flat_map (fun k => shiftRs (k * h) 0 (stateless_reports q frag)) (seq 0 n).
+Proof. exact stateless_copies. Qed.
+Print Assumptions C19_stateless_copies.
+
+(* renaming: no class name is special (both name flags off); the renaming keeps __init__, __new__, self, object, ABC,
+   Protocol, TestCase apart *)
+Theorem C19_stateless_rename : forall sg, sl_sigma_ok sg -> forall q file,
+  q_sl_lookup_by_name q = false -> q_sl_exempt_test_name q = false -> q_sl_exempt_mixin_name q = false ->
+  stateless_reports q (renameF sg file) = map (renameR sg) (stateless_reports q file).
+Proof. exact stateless_rename. Qed.
+Print Assumptions C19_stateless_rename.
+
+(* ---------------------------------------------------------------- 5. method-property (src/linters/method_property) *)
+(* every quirk vector: copies; and the law for contexts without a class wrapper (confinement of q_mp_class_body_only) *)
+Theorem C19_method_copies : forall q n h frag,
+  method_reports q (copies n h frag) = flat_map (fun k => shiftRs (k * h) 0 (method_reports q frag)) (seq 0 n).
+Proof. exact method_copies. Qed.
+Print Assumptions C19_method_copies.
+
+Theorem C19_method_local_partial : forall q c frag,
+  sl_ctx_ok c = true ->
+  Permutation (method_reports q (plug c frag))
+              (shiftRs (off_l c) (off_c c) (method_reports q frag) ++ method_reports q (plug c [])).
+Proof. exact method_embedding_open. Qed.
+Print Assumptions C19_method_local_partial.
+
+(* every class analysed: also below class wrappers (class in a method's class excluded only where a function wrapper
+   sits directly in a class wrapper, whose own candidacy depends on its body) *)
+Theorem C19_method_local : forall q, q_mp_class_body_only q = false -> forall c frag,
+  mp_ctx_ok c = true ->
+  Permutation (method_reports q (plug c frag))
+              (shiftRs (off_l c) (off_c c) (method_reports q frag) ++ method_reports q (plug c [])).
+Proof. exact method_embedding_local. Qed.
+Print Assumptions C19_method_local.
+
+(* the code's exclusion tables are the documented ones *)
+Theorem C19_method_tables_as_documented :
+  mp_exclude_prefixes = mp_doc_exclude_prefixes /\ mp_exclude_names = mp_doc_exclude_names.
+Proof. exact mp_tables_as_documented. Qed.
+Print Assumptions C19_method_tables_as_documented.
 
 (* ---------------------------------------------------------------- non-vacuity *)
 (* the documented violating example of docs/performance-linter.md, inside a method of a class, after a closed
